@@ -42,6 +42,8 @@ pub struct Inner {
     pub parked: bool,
     pub live_epoch: u64,
     pub injected: u64,
+    /// every document / tombstone ever written: (keyspace, id, stamp, bytes or None for a tombstone)
+    pub log: Vec<(String, Key, HLCTimestamp, Option<Vec<u8>>)>,
 }
 
 #[derive(Clone)]
@@ -186,6 +188,7 @@ impl Storage for ModelStore {
                 {
                     let mut g = self.inner.lock();
                     g.keyspaces.insert(keyspace.to_string());
+                    g.log.push((keyspace.to_string(), document.id(), document.last_updated(), Some(document.data().to_vec())));
                     g.data
                         .entry(keyspace.to_string())
                         .or_default()
@@ -213,6 +216,9 @@ impl Storage for ModelStore {
         {
             let mut g = self.inner.lock();
             g.keyspaces.insert(keyspace.to_string());
+            for d in docs.iter().take(limit) {
+                g.log.push((keyspace.to_string(), d.id(), d.last_updated(), Some(d.data().to_vec())));
+            }
             let ks = g.data.entry(keyspace.to_string()).or_default();
             for d in docs.iter().take(limit) {
                 ks.insert(d.id(), (d.last_updated(), Some(d.data().to_vec())));
@@ -233,6 +239,7 @@ impl Storage for ModelStore {
                 {
                     let mut g = self.inner.lock();
                     g.keyspaces.insert(keyspace.to_string());
+                    g.log.push((keyspace.to_string(), doc_id, timestamp, None));
                     g.data.entry(keyspace.to_string()).or_default().insert(doc_id, (timestamp, None));
                 }
                 self.maybe_park(park).await;
@@ -257,6 +264,9 @@ impl Storage for ModelStore {
         {
             let mut g = self.inner.lock();
             g.keyspaces.insert(keyspace.to_string());
+            for d in docs.iter().take(limit) {
+                g.log.push((keyspace.to_string(), d.id, d.last_updated, None));
+            }
             let ks = g.data.entry(keyspace.to_string()).or_default();
             for d in docs.iter().take(limit) {
                 ks.insert(d.id, (d.last_updated, None));
